@@ -3,6 +3,7 @@ package transformer
 import (
 	"fmt"
 	"strings"
+	"unicode/utf8"
 
 	"github.com/antlr4-go/antlr/v4"
 	"github.com/hashicorp/go-multierror"
@@ -549,20 +550,32 @@ func ParseDSL(data string) (*OpenFgaDslListener, *OpenFgaDslErrorListener) {
 		// lines may end in CRLF: the carriage return is not content, and the lexer needs cubic time
 		// for a run of "\r\n" (each '\r' is a line break on its own and half of one)
 		line = strings.TrimRight(line, "\r")
-		cleanedLine := ""
 
-		switch {
-		case len(strings.TrimLeft(line, " ")) == 0:
-			// do nothing, it's an empty line
-		case strings.TrimLeft(line, " ")[0:1] == "#":
-			cleanedLine = ""
-		default:
-			// (a carriage return that only blanks separate from the line end would meet the line feed once they are trimmed;
-			// a trailing tab belongs to the line break like a trailing blank, on the last line nothing would be left to carry it)
-			cleanedLine = strings.TrimRight(strings.Split(line, " #")[0], " \t\r")
+		// a carriage return on its own is a line break for the lexer: a comment ends there as it does at a line feed
+		segments := strings.Split(line, "\r")
+		for idx, segment := range segments {
+			cleanedSegment := ""
+
+			switch {
+			case len(strings.TrimLeft(segment, " ")) == 0:
+				// do nothing, it's an empty line
+			case strings.TrimLeft(segment, " ")[0:1] == "#":
+				cleanedSegment = ""
+			default:
+				// (a carriage return that only blanks separate from the line end would meet the line feed once they are trimmed;
+				// a trailing tab belongs to the line break like a trailing blank, on the last line nothing would be left to carry it)
+				cleanedSegment = strings.TrimRight(strings.Split(segment, " #")[0], " \t\r")
+			}
+
+			// what follows the carriage return is still on this line for reported positions: keep its columns
+			if idx < len(segments)-1 {
+				cleanedSegment += strings.Repeat(" ", utf8.RuneCountInString(segment)-utf8.RuneCountInString(cleanedSegment))
+			}
+
+			segments[idx] = cleanedSegment
 		}
 
-		cleanedLines = append(cleanedLines, cleanedLine)
+		cleanedLines = append(cleanedLines, strings.TrimRight(strings.Join(segments, "\r"), " \t\r"))
 	}
 
 	cleanedData := strings.TrimRight(strings.Join(cleanedLines, "\n"), "\n")
